@@ -3,7 +3,7 @@
 from __future__ import annotations
 
 import itertools
-from typing import Any, List, Set, Tuple
+from typing import Any, Dict, List, Optional, Set, Tuple
 
 from ..core.fde import IndexOutOfRange, Raised, Undecided
 from ..core.findings import Report
@@ -37,9 +37,10 @@ def forests(n: int, edges: List[Tuple[int, int]]) -> Set[Tuple[bool, ...]]:
     return out
 
 
-def ref_acyclic(n: int, edges: List[Tuple[int, int]]):
+def ref_acyclic(n: int, edges: List[Tuple[int, int]], consts: Optional[Dict[int, bool]] = None):
     cn = Canon({})
-    E = lambda e: ("E", e)  # noqa: E731
+    consts = consts or {}
+    E = lambda e: ("c", consts[e]) if e in consts else ("E", e)  # noqa: E731
     R = lambda i: ("rank", i)  # noqa: E731
     inc: List[List[Tuple[int, int]]] = [[] for _ in range(n)]
     for e, (a, b) in enumerate(edges):
@@ -68,18 +69,26 @@ def run(repo: Repo, rep: Report) -> None:
     n_ok = 0
     try:
         for gname, n, edges in GRAPHS:
-            inst = Instance(repo)
-            act = inst.user_bools(len(edges), "E")
-            g = inst.w.graph(n, edges)
-            inst.w.call("active_edges_acyclic", inst.s, act, g)
-            refs, cons = ref_acyclic(n, edges)
-            same, diff = compare(inst, refs, cons)
-            if n <= 5:
-                xitems.append((f"graph '{gname}' {edges}", inst, [a for a in inst.arrays if a["user"]][0]["ids"], (lambda n=n, edges=edges: forests(n, edges))))
-            if same:
-                n_ok += 1
-            else:
-                deviating.append((gname, n, edges, inst, diff))
+            # edge flags as the caller's variables, and with Python constants among them (first edge True / last edge False)
+            variants = [({}, "")]
+            if edges:
+                variants += [({0: True}, ", edge 0 given as the constant True"), ({len(edges) - 1: False}, f", edge {len(edges) - 1} given as the constant False")]
+            for consts, note in variants:
+                inst = Instance(repo)
+                act = inst.user_bools(len(edges), "E")
+                flags: Any = act if not consts else [consts.get(k, v) for k, v in enumerate(act.attrs["data"])]
+                g = inst.w.graph(n, edges)
+                inst.w.call("active_edges_acyclic", inst.s, flags, g)
+                refs, cons = ref_acyclic(n, edges, consts)
+                same, diff = compare(inst, refs, cons)
+                spec = (lambda n=n, edges=edges, consts=consts: {p for p in itertools.product([False, True], repeat=len(edges))
+                                                                   if tuple(consts.get(k, b) for k, b in enumerate(p)) in forests(n, edges)})
+                if n <= 5:
+                    xitems.append((f"graph '{gname}' {edges}{note}", inst, [a for a in inst.arrays if a["user"]][0]["ids"], spec))
+                if same:
+                    n_ok += 1
+                else:
+                    deviating.append((gname + note, n, edges, inst, diff, spec))
     except Undecided as ex:
         rep.undecide("ENC-S", f"active_edges_acyclic: {ex}")
         return
@@ -92,7 +101,8 @@ def run(repo: Repo, rep: Report) -> None:
 
         cross_check(rep, "active_edges_acyclic", "active_edges_acyclic", xitems, what="edge set")
     else:
-        triage(rep, "active_edges_acyclic", "active_edges_acyclic", deviating, forests,
-               lambda inst: [a for a in inst.arrays if a["user"]][0]["ids"], "edge set", "a forest")
+        triage(rep, "active_edges_acyclic", "active_edges_acyclic", [d[:5] for d in deviating], forests,
+               lambda inst: [a for a in inst.arrays if a["user"]][0]["ids"], "edge set", "a forest",
+               specs={id(d[3]): d[5] for d in deviating})
     rep.assume("the reference schema (every vertex has at most one active edge to a strictly lower-ranked neighbour, adjacent ranks distinct, "
                "n rank values) is exact: argument in DESIGN.md C09")
